@@ -259,8 +259,10 @@ def open_findings(prop):
 def write_evidence(prop, tier, coverage, wall, violations, assumptions, level="model_checking"):
     ev = dict(property_id=prop, tier=tier, seed=seed(), level=level, coverage=coverage,
               assumptions=assumptions, wall_s=round(wall, 2), violations=violations)
-    os.makedirs(os.path.join(ROOT, "evidence"), exist_ok=True)
-    p = os.path.join(ROOT, "evidence", prop + ".json")
+    # runs against a deliberately broken tree (seed / mutant evaluation) do not touch the real evidence
+    d = os.path.join(WORK, "evidence") if os.environ.get("VERIF_SCRATCH_REPLAYS") else os.path.join(ROOT, "evidence")
+    os.makedirs(d, exist_ok=True)
+    p = os.path.join(d, prop + ".json")
     with open(p + ".tmp", "w") as f:
         json.dump(ev, f, indent=1, sort_keys=False)
     os.replace(p + ".tmp", p)
